@@ -25,10 +25,11 @@ def check (v d ny nz k : Int) : Except Err Unit := do
   positiveInt k
   if k % 2 ≠ 0 then throw .valueError
   if nz < 2 then throw .valueError
-  if d > v ∨ v * d % 2 = 1 then throw .valueError
+  if d ≥ v ∨ v * d % 2 = 1 then throw .valueError
 
 /-- the precondition of `networkx.random_regular_graph(d, v)` (third-party): it raises
-`NetworkXError` unless `0 ≤ d < v` and `v·d` is even.  `check` lets `d = v` through. -/
+`NetworkXError` unless `0 ≤ d < v` and `v·d` is even — i.e. unless a `d`-regular graph on `v`
+vertices exists.  Since the fix of D41 (`d >= v` in the guard) `check` implies it. -/
 def drawable (v d : Int) : Bool := decide (0 ≤ d ∧ d < v ∧ v * d % 2 = 0)
 
 /-- sizes of the variable groups: `m` = number of template variables (`nx`) -/
